@@ -134,7 +134,7 @@ class FnSplicer:
     def splice(self):
         rf, it, spec = self.rf, self.it, self.spec
         known = {'result', 'requires', 'ensures', 'decreases', 'loops', 'proofs', 'closures', 'props', 'note',
-                 'unroll_fn_array', 'opens_invariants', 'no_unwind', 'external_body', 'returns', 'mode_attr', 'assumed', 'slice_matches'}
+                 'unroll_fn_array', 'opens_invariants', 'no_unwind', 'external_body', 'returns', 'mode_attr', 'assumed', 'slice_matches', 'retain', 'take_while_count', 'proved_in'}
         bad = set(spec) - known
         if bad:
             raise ExtractError(f'unknown spec keys {bad}')
@@ -194,6 +194,11 @@ class FnSplicer:
         # --- slice patterns inside matches! (R6)
         if spec.get('slice_matches'):
             self._r6()
+        # --- Vec::retain with a stateful closure (R9), take_while(..).count() (R7)
+        if spec.get('retain'):
+            self._r9(dict(spec['retain']))
+        if spec.get('take_while_count'):
+            self._r7(dict(spec['take_while_count']))
         # --- proof / ghost insertions
         for p in spec.get('proofs', []):
             self._splice_proof(p, loops)
@@ -427,6 +432,86 @@ class FnSplicer:
         if not found:
             raise ExtractError(f'{self._where()}: R6 requested but no `matches!(x, [.., ..])` found')
 
+    def _r9(self, cfg):
+        """R9: `self.retain(|P| { BODY });`  =>
+        `{ let mut __flags: Vec<bool> = Vec::new(); let mut __r: usize = 0;
+           while __r < self.len() { [let P = &self[__r];] let __b: bool = { BODY }; __flags.push(__b); __r += 1; }
+           vec_retain_flags(self, &__flags); }`
+        i.e. the documented behaviour of Vec::retain ("visits each element exactly once in the original order, and
+        preserves the order of the retained elements"): the closure body runs once per element, in order, with its
+        captured state updated in place, and afterwards exactly the elements whose call returned true remain
+        (`vec_retain_flags`, a trusted std stand-in). BODY is left untouched."""
+        rf, it = self.rf, self.it
+        bad = set(cfg) - {'invariant', 'decreases', 'end_proof', 'after_proof'}
+        if bad:
+            raise ExtractError(f'unknown retain spec keys {bad}')
+        ci = it.body[0] + 1; end = it.body[1]; hits = []
+        while ci < end:
+            if [rf.ct(ci + k).text for k in range(4)] == ['self', '.', 'retain', '('] and rf.ct(ci - 1).text in (';', '{', '}'):
+                hits.append(ci)
+            ci += 1
+        if len(hits) != 1:
+            raise ExtractError(f'{self._where()}: R9 needs exactly one statement `self.retain(..)` (found {len(hits)})')
+        ci = hits[0]
+        op = ci + 3; cp = rf.match(op)
+        if rf.ct(cp + 1).text != ';':
+            raise ExtractError(f'{self._where()}: R9: `self.retain(..)` is not a statement')
+        if rf.ct(op + 1).text != '|' or rf.ct(op + 3).text != '|' or rf.ct(op + 2).kind != 'ident' or rf.ct(op + 4).text != '{':
+            raise ExtractError(f'{self._where()}: R9 needs a closure `|x| {{ .. }}` with one plain parameter and a block body')
+        P = rf.ct(op + 2).text
+        ob = op + 4; cb = rf.match(ob)
+        if cb + 1 != cp:
+            raise ExtractError(f'{self._where()}: R9: closure body is not the whole argument')
+        clauses = self._clauses(cfg)
+        bind = '' if P == '_' else f'let {P} = &self[__r]; '
+        before = rf.spaced(ci, ob + 1)
+        head = ('{ let mut __flags: Vec<bool> = Vec::new(); let mut __r: usize = 0; while __r < self.len()\n'
+                + clauses + '{ ' + bind + 'let __b: bool = {')
+        self.ed.replace(rf.ct(ci).start, rf.ct(ob).end, head)
+        endp = ('proof { ' + cfg['end_proof'] + ' }\n') if cfg.get('end_proof') else ''
+        aftp = ('proof { ' + cfg['after_proof'] + ' }\n') if cfg.get('after_proof') else ''
+        tail = ';\n' + endp + '__flags.push(__b); __r += 1; }\n' + aftp + 'vec_retain_flags(self, &__flags); }'
+        self.ed.replace(rf.ct(cp).start, rf.ct(cp + 1).end, tail)
+        self.desugared.append({'rule': 'R9', 'before': ' '.join(before.split()) + ' BODY });',
+                               'after': ' '.join(head.split()) + ' BODY }; __flags.push(__b); __r += 1; } vec_retain_flags(self, &__flags); }'})
+
+    def _r7(self, cfg):
+        """R7: `E.iter().take_while(|C| PRED).count()` (E a plain identifier naming a slice)  =>
+        `{ let mut __n: usize = 0; loop { if __n >= E.len() { break; } let C = &&E[__n]; if !(PRED) { break; } __n += 1; } __n }`
+        -- the definition of take_while + count on slice::Iter: the number of leading elements for which PRED holds
+        (the closure parameter of take_while over slice::Iter<T> is a `&&T`). PRED is left untouched."""
+        rf, it = self.rf, self.it
+        bad = set(cfg) - {'invariant', 'decreases'}
+        if bad:
+            raise ExtractError(f'unknown take_while_count spec keys {bad}')
+        ci = it.body[0] + 1; end = it.body[1]; found = 0
+        while ci < end:
+            if rf.ct(ci).kind == 'ident' and [rf.ct(ci + k).text for k in range(1, 9)] == ['.', 'iter', '(', ')', '.', 'take_while', '(', '|'] \
+                    and rf.ct(ci - 1).text != '.':
+                E = rf.ct(ci).text
+                op = ci + 7; cp = rf.match(op)
+                if rf.ct(op + 2).kind != 'ident' or rf.ct(op + 3).text != '|':
+                    raise ExtractError(f'{self._where()}: R7 needs a closure with one plain parameter')
+                C = rf.ct(op + 2).text
+                if [rf.ct(cp + k).text for k in range(1, 5)] != ['.', 'count', '(', ')']:
+                    raise ExtractError(f'{self._where()}: R7 needs `.take_while(..).count()`')
+                PRED = rf.spaced(op + 4, cp).strip()
+                inv = list(cfg.get('invariant', []))
+                cl = ('invariant\n    __n <= ' + E + '@.len(),\n' + ''.join(f'    {c.replace("{E}", E)},\n' for c in inv)
+                      + f'decreases {E}@.len() - __n,\n')
+                self.clauses += len(inv) + 2
+                before = rf.spaced(ci, cp + 5)
+                after = (f'{{ let mut __n: usize = 0; loop\n{cl}{{ if __n >= {E}.len() {{ break; }} let {C} = &&{E}[__n]; '
+                         f'if !({PRED}) {{ break; }} __n += 1; }} __n }}')
+                self.ed.replace(rf.ct(ci).start, rf.ct(cp + 4).end, after)
+                self.desugared.append({'rule': 'R7', 'before': ' '.join(before.split()), 'after': ' '.join(re.sub(r'invariant.*?decreases[^,]*,', '', after, flags=re.S).split())})
+                found += 1
+                ci = cp + 5
+                continue
+            ci += 1
+        if found != 1:
+            raise ExtractError(f'{self._where()}: R7 needs exactly one `x.iter().take_while(|c| ..).count()` (found {found})')
+
     def _splice_proof(self, p, loops):
         rf, it = self.rf, self.it
         kind = p.get('kind', 'proof')
@@ -627,7 +712,7 @@ class Unit:
         name = (qual + '::' if qual else '') + fname
         self.pieces.append(Piece('fn', pre + text + '\n', name=name, origin=self._origin(rel, it),
                                  sha256=hashlib.sha256(it.raw_text().encode()).hexdigest(),
-                                 contract={k: v for k, v in spec.items() if k in ('requires', 'ensures', 'decreases', 'props', 'note', 'external_body', 'assumed')},
+                                 contract={k: v for k, v in spec.items() if k in ('requires', 'ensures', 'decreases', 'props', 'note', 'external_body', 'assumed', 'proved_in')},
                                  desugared=sp.desugared))
         self.pieces[-1].contract['clauses'] = sp.clauses
 
